@@ -211,6 +211,10 @@ void mp::internal::TextReader<Locale>::ReadHeader(NLHeader &header) {
       ReadOptionalUInt(header.num_eqns)) {
       ReadOptionalUInt(header.num_logical_cons);
   }
+  // Suffix and constraint indices range over algebraic + logical constraints.
+  if (header.num_logical_cons >
+      std::numeric_limits<int>::max() - header.num_algebraic_cons)
+    ReportError("integer overflow");
   ReadTillEndOfLine();
 
   // Read the nonlinear and complementarity information.
